@@ -14,7 +14,7 @@ from mc import env
 from mc.core import Res
 from mc import targets
 from mc.tape import OwnedRandom
-from mc.pipeline import Probe, UserFailure
+from mc.pipeline import Probe, UserFailure, UserInterrupt
 
 LEVEL = "model_checking"
 RULE = ("executions = all sequences of -inf masks (m_1..m_W) in ({0,1}^n)^W for n in {2,3,4}, W in {1..4} (W forced through ess_ratio), x all "
@@ -62,7 +62,8 @@ def _one(res, case, n, W, ratio, slope, ms, ans):
     elif variant == "prior32":  # prior transform returning float32
         cfg.update(eval="vec", prior="affine32")
     anneal = case.get("anneal", 0)
-    hole = targets.Hole(F, slope=slope)
+    level = case.get("level", 0.0)  # constant-on-support likelihood: the constant (exactly the same logL for every stored particle)
+    hole = targets.Hole(F, slope=slope, level=level)
     p = Probe(cfg)
     beta0_iter = [0]
     rec = {"logz0": [], "first_pos": None, "neg_inf": None, "choice_calls": 0, "draws": {}, "aborted": set(), "calls_in_iter": {}}
@@ -72,6 +73,8 @@ def _one(res, case, n, W, ratio, slope, ms, ans):
         c = rec["calls_in_iter"][p.iters] = rec["calls_in_iter"].get(p.iters, 0) + 1
         if fail and not rec["aborted"] and p.iters == fail[0] and c == fail[1]:
             rec["aborted"].add(p.iters)
+            if len(fail) > 2 and fail[2] == "kbd":
+                raise UserInterrupt(f"Ctrl-C at call {c} of iteration {p.iters}")
             raise UserFailure(f"transient failure at call {c} of iteration {p.iters}")
         return hole(x)
 
@@ -117,11 +120,11 @@ def _one(res, case, n, W, ratio, slope, ms, ans):
             rec["first_pos"] = (float(cur["beta"]), float(cur["logz"]), ev.iter)
 
     p.monitors.append(mon)
-    p.steps(W + 1 + anneal, retry_on=UserFailure if fail else None)
+    p.steps(W + 1 + anneal, retry_on=(UserFailure, UserInterrupt) if fail else None)
     res.evals += 1
     res.states += p.events
     res.trans += p.events
-    cc = {"kind": "masks", "n": n, "W": W, "slope": slope, "only": [list(m) for m in ms], "answers": False, "variant": variant, "anneal": anneal}
+    cc = {"kind": "masks", "n": n, "W": W, "slope": slope, "only": [list(m) for m in ms], "answers": False, "variant": variant, "anneal": anneal, "level": level}
     label = f"n={n} W={W} masks={[''.join(map(str, m)) for m in ms]}"
     if fail:
         cc["fail"] = list(fail)
@@ -180,8 +183,8 @@ def _one(res, case, n, W, ratio, slope, ms, ans):
         lo, hi = min(logf), max(logf)
         if b != 1.0:
             res.violate("hole:flat-first-beta", f"{label}: constant-on-support likelihood, first beta>0 is {b!r} (expected 1)", cc)
-        if not (lo - 1e-12 <= z <= hi + 1e-12):
-            res.violate("hole:evidence", f"{label}: evidence at the first annealing iteration is {z!r}, outside [{lo!r}, {hi!r}] (log supported fractions {logf})", cc)
+        if not (lo + level - 1e-12 <= z <= hi + level + 1e-12):
+            res.violate("hole:evidence", f"{label}: likelihood = exp({level}) on the support; evidence at the first annealing iteration is {z!r}, outside [{lo + level!r}, {hi + level!r}] (log supported fractions {logf})", cc)
 
 
 KINDS = {"masks": run_masks}
@@ -202,6 +205,10 @@ def plan(ctx):
                         cases.append({"kind": "masks", "n": n, "W": W, "slope": slope, "first_mask": list(fm), "answers": W <= 2})
                 else:
                     cases.append({"kind": "masks", "n": n, "W": W, "slope": slope, "answers": W <= 2})
+    for n in (2, 3):
+        for W in (1, 2):
+            for lv in (-2.5, 3.0):
+                cases.append({"kind": "masks", "n": n, "W": W, "slope": 0.0, "answers": False, "level": lv})
     for variant in ("vec32", "prior32"):
         for n in (2, 3):
             for W in (1, 2):
@@ -214,6 +221,8 @@ def plan(ctx):
         for t in range(1, W + 2):
             for j in range(1, 2 * n + 1):
                 cases.append({"kind": "masks", "n": n, "W": W, "slope": 0.0 if (t + j) % 2 else 0.3, "answers": False, "fail": [t, j]})
+                if n == 2 or th:  # the same failure points with a KeyboardInterrupt (not an Exception subclass) that the user catches
+                    cases.append({"kind": "masks", "n": n, "W": W, "slope": 0.3 if (t + j) % 2 else 0.0, "answers": False, "fail": [t, j, "kbd"]})
     ctx.bounds["failure_points"] = "every (iteration t <= W+1, likelihood call j <= 2n) x every mask sequence; (n,W) in {(2,1),(2,2),(3,1)} quick, + (3,2),(4,1),(2,3) thorough"
     ctx.bounds.update({"n_particles": [2, 3, 4], "warmup_iterations": [1, 2, 3, 4], "mask_sequences_max": 65536 if th else 4096, "supported_fraction": F})
     ctx.explore("mask-sequences", cases)
